@@ -8,7 +8,16 @@ to cross-check the table.  Shared by harness/translate/gen_sites.py and harness/
 from __future__ import annotations
 import re, io, tokenize, token
 
-CAN_RE = re.compile(r"zq[a-z]{3}jh", re.I)
+# canaries: free-text slots carry zq???jh; validated-format slots (defaults of kind date / date-time / uuid / number given as a string) carry a
+# token that is valid for the kind's validator: a date 18NN-11-22 / 19NN-11-22, a 31-digit uuid head, a number 734NNN
+CAN_RE = re.compile(r"zq[a-z]{3}jh|1[89]\d\d-11-22|0000\d{4}-aaaa-4bbb-8ccc-d{11}|734\d{3}", re.I)
+KIND_TOKEN = {"date": lambda n: "%d-11-22" % (1800 + n), "datetime": lambda n: "%d-11-22" % (1800 + n),
+              "uuid": lambda n: "0000%04d-aaaa-4bbb-8ccc-ddddddddddd" % n, "int": lambda n: "734%03d" % n, "float": lambda n: "734%03d" % n,
+              "enumdef": lambda n: canary(17000 + n)}
+KIND_BASE = {"date": "{tok}", "datetime": "{tok}T10:20:30", "uuid": "{tok}d", "int": "{tok}", "float": "{tok}.5", "enumdef": "{tok}"}
+# classification probe: a value the kind's validator accepts and whose emitted form tells repr from hand-quoting / from number normalisation
+KIND_Q = {"date": "{tok}\\10", "datetime": "{tok}\\10:20:30", "uuid": "\t{tok}", "int": " +{tok} ", "float": " +{tok}.5 ",
+          "enumdef": "{tok} Yy'kw"}     # enum value that is also the default: no double quote (rejected on the unchanged tree)
 
 
 def canary(i: int) -> str:
@@ -18,23 +27,32 @@ def canary(i: int) -> str:
 
 class Canaries:
     """C callback that hands out one unique lower-case canary per slot call; `wrap(label, canary)` may decorate it."""
-    def __init__(self, wrap=None):
+    def __init__(self, wrap=None, wrap_kind=None):
         self.by_canary = {}     # canary -> label
         self.by_label = {}      # label -> canary
         self.text = {}          # label -> full text put into the document (fmt applied)
         self.core = {}          # label -> the text that replaces the canary (wrap applied, fmt not)
+        self.kind = {}          # label -> kind, for validated-format slots
         self.wrap = wrap
+        self.wrap_kind = wrap_kind
 
-    def __call__(self, label: str, fmt: str = "{}") -> str:
-        """fmt places fixed characters around the slot text (e.g. "1{}": a value whose first character is not a letter)."""
+    def __call__(self, label: str, fmt: str = "{}", kind: str = None) -> str:
+        """fmt places fixed characters around the slot text (e.g. "1{}": a value whose first character is not a letter).
+        kind: the slot only takes values its validator accepts; the canary is a token valid for that kind and the text is
+        wrap_kind(label, token, kind) (default: the plain base value of the kind)."""
         if label in self.by_label:
             raise ValueError("duplicate slot label " + label)
-        c = canary(len(self.by_label))
+        if kind:
+            c = KIND_TOKEN[kind](len(self.kind))
+            self.kind[label] = kind
+            core = self.wrap_kind(label, c, kind) if self.wrap_kind else KIND_BASE[kind].replace("{tok}", c)
+        else:
+            c = canary(len(self.by_label))
+            core = self.wrap(label, c) if self.wrap else c
         self.by_label[label] = c
         self.by_canary[c] = label
-        core = self.wrap(label, c) if self.wrap else c
         self.core[label] = core
-        self.text[label] = fmt.format(core)
+        self.text[label] = fmt.format(core) if not kind else core
         return self.text[label]
 
 
@@ -149,6 +167,49 @@ def _shape_paths(C):
     }
 
 
+def _default_schemas(C):
+    """Default values of every kind that turns a string default into code, in a model."""
+    D = lambda pos, kind: C("Schema.default@" + pos, kind=kind)
+    em, cv = C("Schema.enum.item@prop-default-member", kind="enumdef"), C("Schema.const@prop-with-default")
+    return {
+        # an enum default must equal a member (and class enums look it up by the escaped spelling: a double quote is rejected - finding
+        # enum_default_dq of C13/C14), a const default must equal the const: separate models so that a rejection stays local
+        "DefaultEnum": {"type": "object", "properties": {"den": {"type": "string", "enum": [em, "zz"], "default": em}}},
+        "DefaultConst": {"type": "object", "properties": {"dco": {"const": cv, "default": cv}}},
+        "Defaults": {"type": "object", "properties": {
+            "dda": {"type": "string", "format": "date", "default": D("prop-date", "date")},
+            "ddt": {"type": "string", "format": "date-time", "default": D("prop-datetime", "datetime")},
+            "duu": {"type": "string", "format": "uuid", "default": D("prop-uuid", "uuid")},
+            "din": {"type": "integer", "default": D("prop-int-string", "int")},
+            "dfl": {"type": "number", "default": D("prop-float-string", "float")},
+            "dun": {"oneOf": [{"type": "string", "format": "date-time"}, {"type": "integer"}], "default": D("prop-union-datetime", "datetime")},
+            "duq": {"anyOf": [{"type": "string", "format": "uuid"}, {"type": "boolean"}], "default": D("prop-union-uuid", "uuid")},
+        }},
+    }
+
+
+def _default_paths(C):
+    D = lambda pos, kind: C("Schema.default@" + pos, kind=kind)
+    params = []
+    for loc in ("query", "header", "cookie"):
+        params.append({"name": loc[0] + "uu", "in": loc, "schema": {"type": "string", "format": "uuid", "default": D(loc + "-uuid", "uuid")}})
+        if loc != "header":     # date / date-time parameters are not allowed in headers
+            params.append({"name": loc[0] + "dt", "in": loc, "schema": {"type": "string", "format": "date-time", "default": D(loc + "-datetime", "datetime")}})
+        else:
+            params.append({"name": "hin", "in": loc, "schema": {"type": "integer", "default": D("header-int-string", "int")}})
+        if loc != "query":
+            params.append({"name": loc[0] + "st", "in": loc, "schema": {"type": "string", "default": C("Schema.default@" + loc + "-string")}})
+    em = C("Schema.enum.item@query-default-member", kind="enumdef")
+    params += [
+        {"name": "qda", "in": "query", "schema": {"type": "string", "format": "date", "default": D("query-date", "date")}},
+        {"name": "qin", "in": "query", "schema": {"type": "integer", "default": D("query-int-string", "int")}},
+        {"name": "qfl", "in": "query", "schema": {"type": "number", "default": D("query-float-string", "float")}},
+        {"name": "qun", "in": "query", "schema": {"oneOf": [{"type": "string", "format": "date-time"}, {"type": "integer"}], "default": D("query-union-datetime", "datetime")}},
+        {"name": "qen", "in": "query", "schema": {"type": "string", "enum": [em, "zz"], "default": em}},
+    ]
+    return {"/defaults": {"get": {"operationId": "defaultsOp", "tags": ["shapes"], "parameters": params, "responses": {"200": {"description": "ok"}}}}}
+
+
 def _build_a(C):
     model_name = C("Components.schemas.key@model-titled")
     enum_name = C("Components.schemas.key@enum-titled")
@@ -197,6 +258,7 @@ def _build_a(C):
         "IntEnum": {"type": "integer", "enum": [1, 2], "description": C("Schema.description@int-enum")},
         enum2_name: {"type": "string", "enum": ["m", "n"]},
         **_shape_schemas(C),
+        **_default_schemas(C),
         C("Components.schemas.key@model"): {"type": "object", "properties": {"y": {"type": "string", "enum": ["m", "n"]}, "z": {"type": "object", "properties": {"w": {"type": "integer"}}}}},
     }
     op = {
@@ -239,6 +301,7 @@ def _build_a(C):
         "externalDocs": {"url": C("ExternalDocumentation.url@root"), "description": C("ExternalDocumentation.description@root")},
         "paths": {"/p/{pp}/" + C("OpenAPI.paths.key"): {"summary": C("PathItem.summary"), "description": C("PathItem.description"), "post": op},
                   **_shape_paths(C),
+                  **_default_paths(C),
                   "/" + C("OpenAPI.paths.key@noparams"): {"post": {"tags": [C("Operation.tags.item@second")], "operationId": C("Operation.operationId@second"),
                                                           "requestBody": {"content": {"application/json": {"schema": {"type": "object", "properties": {"q": {"type": "string"}}}}}},
                                                           "responses": {"200": {"description": C("Response.description@second"),
@@ -369,6 +432,8 @@ def py_contexts(src: str):
             out.append((s, e, "CODE", t.string))
         elif ty == token.COMMENT:
             out.append((s, e, "COMMENT", t.string))
+        elif ty == token.NUMBER:
+            out.append((s, e, "NUMBER", t.string))
         elif ty in (token.NEWLINE, token.NL, token.INDENT, token.DEDENT, token.ENDMARKER):
             continue
         else:
@@ -546,6 +611,43 @@ def render(doc, meta, cfg):
         return {k: v.decode("utf-8", "replace") for k, v in g.files().items()}, g.diag()
 
 
+def classify_kind(text: str, off: int, tok: str, kind: str, ctx: str = "") -> str:
+    """How the text of a validated-format slot was emitted, from the image of KIND_Q[kind]."""
+    before, after = text[max(0, off - 4):off], text[off + len(tok): off + len(tok) + 12]
+    if kind == "enumdef":
+        can = text[off:off + len(tok)]
+        if after.startswith(" Yy'kw"):
+            if ctx == "SQ":      # the canary-only rendering is a single-quoted literal: repr switches to double quotes, hand-quoting does not
+                return "repr" if before.endswith('"') and after.startswith(" Yy'kw\"") else "none"
+            if ctx in ("DOC", "RDOC"):
+                return "repr" if before.endswith('"') and after.startswith(" Yy'kw\"") else "none"
+            return "esc"         # on the accepted alphabet (no double quote) remove_string_escapes is the identity
+        if after.startswith(" Yy\\'kw"):
+            return "repr" if before.endswith("'") else "unknown"
+        if can.islower() and after.startswith("_yykw"):
+            return "snake"
+        if can.isupper() and after.startswith("_YYKW"):
+            return "upper_snake"
+        if can[0].isupper() and after.startswith("Yykw"):
+            return "pascal"
+        return "unknown"
+    if kind in ("date", "datetime"):
+        if after.startswith("\\\\10") and before.endswith("'"):
+            return "repr"
+        if after.startswith("\\10"):
+            return "none"
+    elif kind == "uuid":
+        if before.endswith("'\\t") and after.startswith("'"):
+            return "repr"
+        if before.endswith("\t"):
+            return "none"
+    elif kind in ("int", "float"):
+        if before.rstrip(" ").endswith("+") or after.startswith(" ") and not before.endswith(" "):
+            return "none" if before.rstrip(" ").endswith("+") else "number"
+        return "number"
+    return "unknown"
+
+
 def classify_sanitiser(text: str, off: int) -> str:
     """Sanitiser class of the image of `canary + SUF_Q` found at text[off:]."""
     can = text[off:off + 7]
@@ -582,11 +684,13 @@ def site_table(shape: str, variants=None):
     rows = set()
     report = {"variants": [], "slots": None, "labels": None, "diagnostics": []}
     for meta, cfg in (variants or VARIANTS):
-        c1, c2, c3 = Canaries(), Canaries(lambda l, c: c + SUF_Q), Canaries(lambda l, c: c + SUF_B)
+        kq = lambda l, t, k: KIND_Q[k].replace("{tok}", t)
+        c1, c2, c3 = Canaries(), Canaries(lambda l, c: c + SUF_Q, kq), Canaries(lambda l, c: c + SUF_B, kq)
         f1, d1 = render(build(shape, c1), meta, cfg)
         f2, d2 = render(build(shape, c2), meta, cfg)
         f3, d3 = render(build(shape, c3), meta, cfg)
         report["labels"] = sorted(c1.by_label)
+        report["kinds"] = dict(c1.kind)
         report["diagnostics"] += [list(map(str, d)) for d in d1]
         n2 = {norm_path(p): p for p in f2}
         n3 = {norm_path(p): p for p in f3}
@@ -630,23 +734,28 @@ def site_table(shape: str, variants=None):
                 i = seen1.get(can, 0)
                 seen1[can] = i + 1
                 l2 = by2.get(can, [])
+                knd = c1.kind.get(c1.by_canary[can])
                 if can in rejected:
                     san = "rejects"
+                elif len(l2) != count1[can]:
+                    san = "unknown"
+                elif knd:
+                    san = classify_kind(src2 + "\0" * 16, l2[i], can, knd, ctx)
                 else:
-                    san = classify_sanitiser(src2 + "\0" * 16, l2[i]) if len(l2) == count1[can] else "unknown"
+                    san = classify_sanitiser(src2 + "\0" * 16, l2[i])
                 if ctx == "FCODE":
                     ctx = "IDENT"
                 if ctx in ("DOC", "RDOC"):
                     # the image must not touch a double quote of the surrounding template text
                     b = src[off - 1] if off else ""
-                    a = src[off + 7: off + 8]
+                    a = src[off + len(can): off + len(can) + 1]
                     if b == "'" and a == "'":
-                        b, a = src[off - 2: off - 1], src[off + 8: off + 9]
+                        b, a = src[off - 2: off - 1], src[off + len(can) + 1: off + len(can) + 2]
                     l3 = by3.get(can, [])
                     raw_on_bs = len(l3) == count1[can] and l3[i] == "RDOC"
                     if b == '"' or a == '"' or ctx == "RDOC":
                         ctx = "unknown"
-                    elif san in ("snake", "pascal", "kebab", "upper_snake", "sanitize", "rejects"):
+                    elif san in ("snake", "pascal", "kebab", "upper_snake", "sanitize", "rejects", "number") or knd in ("uuid", "int", "float", "enumdef"):
                         ctx = "DOC"      # identifier images never contain a backslash: raw/cooked is immaterial
                     else:
                         ctx = "DOC" if raw_on_bs else "DOC_COOKED"
